@@ -494,10 +494,10 @@ bool genRestr(vf::Ctx& c, const DiscreteDistributionInterface& d, bool lowerOnly
 }
 }  // namespace
 
-// Termination is part of this law (watchdog 5 CPU-seconds per case, a hang is a violation): the restricted domains hold >= 15% of
+// Termination is part of this law (watchdog 3 CPU-seconds per case, a hang is a violation): the restricted domains hold >= 15% of
 // the mass (never < 5%), so 20 000 draws of the conditional law need about 10^5 variates of the parent law (0.1 s); a randC()
-// that has not delivered them after >= 10^7 variates accepts less than 1% of what the law puts on the domain: it does not draw from it.
-LAW(D_randC_restricted, RC, 36, 180, 32, "the restricted domain holds at most 90% of the mass: first draws are rejected and re-drawn", 5, true) {
+// that has not delivered them after several 10^6 variates accepts a few per cent of what the law puts on the domain: it does not draw from it.
+LAW(D_randC_restricted, RC, 36, 180, 32, "the restricted domain holds at most 90% of the mass: first draws are rejected and re-drawn", 3, true) {
   static const vector<unsigned> FAM = {2, 6, 2, 2, 2, 2, 1, 0, 0};   // no Constant (one point), no Simple (no continuous version)
   uint32_t seed = genSeed(c); Dist D = genDist(c, FAM);
   Restr r; bool ok = genRestr(c, *D.d, D.family == 5, r);
